@@ -151,6 +151,16 @@ mutual
     | .beq a b => a.WF ∧ b.WF
 end
 
+/-- modular exponentiation by squaring: what `pow(lhs, rhs, 1 << size)` computes, without ever building
+    an integer wider than `2*size` bits -/
+def powMod (b e m : Nat) : Nat :=
+  if h : e = 0 then 1 % m
+  else
+    let half := powMod ((b * b) % m) (e / 2) m
+    if e % 2 = 1 then (b * half) % m else half
+termination_by e
+decreasing_by omega
+
 /-- names halmos gives its arithmetic abstractions (sevm.py: f_div, f_mod, f_mul, f_sdiv, f_smod, f_exp) -/
 def stdUf2 (name : String) (w : Nat) (a b : Nat) : Option Nat :=
   if name = s!"f_evm_bvudiv_{w}" then some (if b = 0 then 0 else a / b)
@@ -160,7 +170,7 @@ def stdUf2 (name : String) (w : Nat) (a b : Nat) : Option Nat :=
     some (if b = 0 then 0 else ofInt w (Int.tdiv (toInt w a) (toInt w b)))
   else if name = s!"f_evm_bvsrem_{w}" then
     some (if b = 0 then 0 else ofInt w (Int.tmod (toInt w a) (toInt w b)))
-  else if name = s!"f_evm_exp_{w}" then some ((a ^ b) % 2 ^ w)
+  else if name = s!"f_evm_exp_{w}" then some (powMod a b (2 ^ w))   -- = a ^ b % 2 ^ w (Lemmas.Word.powMod_eq), computed by squaring
   else none
 
 /-- an interpretation is *standard* when every arithmetic abstraction means the exact EVM operation -/
